@@ -17,6 +17,9 @@ CLAIMED = {
  "C07": ("E2 product over construct nestings",
          "all chains of depth 1..3 (thorough: plus depth 4 over 10 core constructs) over ~38 (thorough 64) construct variants (bare block, if x truth value, if/else x arm, else-if chains of 2 and 3 conditions x all truth assignments x child arm, while, for over list literal / list variable / string / object / range, named / anonymous / method call) x 13 innermost statements (none; break / continue / return bare or armed to fire on the 1st/2nd/3rd reach), the same chains with the jump in a sibling position before / after the child at every level, a shadowed variable declared at every level, and 30 loop bodies that mutate the iterated value or the loop bound; oracle = exact print trace and termination class of the reference interpreter",
          "exhaustive enumeration of construct nestings x jump placements x truth assignments on the real interpreter against a reference interpreter"),
+ "C08": ("E2 product (complete)",
+         "all operator sequences e0 o1 e1 .. on en with n <= 3 (thorough 4) over the 15 binary operators and `..`, every assignment of 14 operand forms (name, literal, negative literal, call, index, range index, property, type property, postfix forms on a negative literal, ...) for n <= 2 in three spacing styles, one varied operand for larger n; all expression trees with <= 4 (thorough 5) operator nodes over one operator per tier (all 16 at the topmost levels) printed with only the necessary parentheses, and every subset of redundant parenthesis placements (capped at ~45 per tree); all operator pairs evaluated on 6 operand triples; oracle = the real parser's tree (hook ast, parsed generically from its Debug dump) must equal the reference precedence-climbing parser's tree / the printed tree itself; accept/reject must agree; evaluation results equal the reference interpreter",
+         "exhaustive enumeration of operator sequences and expression trees on the real parser against a reference parser and the print/parse round trip"),
  "C10": ("E2 product (complete over the pool)",
          "all ordered pairs over an exhaustive pool of ~290 (quick) / ~500 (thorough) nested values (atoms, a function, every list of length <= 2 and object over keys a, b, one and two levels deep) x 3 construction patterns (operands built separately; every equal container sub-term built once and referenced everywhere, across and inside the operands; object keys in reverse order) x 4 programs (==, reversed ==, != first, the === matrix), plus all pairs of lists over {0,1} of length <= 5 and of objects over every subset of four keys; oracle = tolerant structural-equality reference computed without short-cuts (a boolean where no differently-typed positions exist; a diagnostic naming an occurring kind pair, or `false` only when a plain difference exists, otherwise) and laws on the subject's own answers: operand order, negation, transitivity over the whole table, sharing- and order-independence, === reflexive / symmetric / implies ==, operands print unchanged",
          "exhaustive enumeration of all value pairs up to a size bound on the real interpreter against a reference relation and algebraic laws"),
